@@ -131,9 +131,16 @@ impl ConfigWebParams {
         Ok(param)
     }
 
+    /// offset and limit of a page; page number 0 is taken as the first page and an offset that
+    /// does not fit is behind every stored config
+    fn build_page_range(page_no: Option<usize>, page_size: Option<usize>) -> (usize, usize) {
+        let limit = page_size.unwrap_or(0xffff_ffff);
+        let offset = page_no.unwrap_or(1).saturating_sub(1).saturating_mul(limit);
+        (offset, limit)
+    }
+
     pub fn build_like_search_param(self) -> ConfigQueryParam {
-        let limit = self.page_size.unwrap_or(0xffff_ffff);
-        let offset = (self.page_no.unwrap_or(1) - 1) * limit;
+        let (offset, limit) = Self::build_page_range(self.page_no, self.page_size);
         let mut param = ConfigQueryParam {
             limit,
             offset,
@@ -149,8 +156,7 @@ impl ConfigWebParams {
     }
 
     pub fn build_search_param(self) -> ConfigQueryParam {
-        let limit = self.page_size.unwrap_or(0xffff_ffff);
-        let offset = (self.page_no.unwrap_or(1) - 1) * limit;
+        let (offset, limit) = Self::build_page_range(self.page_no, self.page_size);
         let mut param = ConfigQueryParam {
             limit,
             offset,
@@ -311,7 +317,12 @@ async fn do_search_config(
     appdata: web::Data<Arc<AppShareData>>,
 ) -> HttpResponse {
     let page_size = query_param.limit;
-    let page_number = query_param.offset / query_param.limit + 1;
+    // a page size of 0 gives an empty page 1 of 0 pages
+    let page_number = query_param
+        .offset
+        .checked_div(query_param.limit)
+        .unwrap_or(0)
+        .saturating_add(1);
     let cmd = ConfigCmd::QueryPageInfo(Box::new(query_param));
     match appdata.config_addr.send(cmd).await {
         Ok(res) => {
@@ -321,7 +332,11 @@ async fn do_search_config(
                     let page = ConfigSearchPage {
                         total_count: Some(total_count),
                         page_number: Some(page_number),
-                        pages_available: Some(total_count.div_ceil(page_size)),
+                        pages_available: Some(if page_size == 0 {
+                            0
+                        } else {
+                            total_count.div_ceil(page_size)
+                        }),
                         page_items: Some(list),
                     };
                     HttpResponse::Ok().json(page)
